@@ -6167,7 +6167,7 @@ let has_ident_key name props =
 let inject_option args name value =
   let kv = KV ((IdName (s_ name)), value) in
   (match args with
-   | [] -> app args ((Elem (false, (Obj (kv :: [])))) :: [])
+   | [] -> []
    | a0 :: l ->
      (match l with
       | [] -> a0 :: ((Elem (false, (Obj (kv :: [])))) :: [])
